@@ -338,7 +338,7 @@ Prop_C15(S) == IsRecv(S) /\ S.hasParse =>
 
 (* C16 Only returning Noble-native tokens are processed, under the coin ICS-20 credits *)
 \* a one-hop voucher whose prefix is the packet's source port and channel, over a native base
-ReturningNative(in) == in.dn = "RET"
+ReturningNative(in) == in.dn \in RetClasses
 Prop_C16(S) == IsOrbiterPacket(S) /\ S.in.dn # "L" =>
   /\ (~ReturningNative(S.in) => ~S.ok)
   \* "processed only when": for any other token no action controller is entered and no request reaches
